@@ -290,7 +290,10 @@ impl<H: DnsHandle> DnssecDnsHandle<H> {
         // that accompany it (some servers add the NSEC3 record matching the query name) have
         // been verified as RRsets above; reading them as a denial of existence would reject the
         // answer for containing the very type it answers.
-        if !must_validate_nsec && !message.answers.is_empty() {
+        if !must_validate_nsec
+            && !message.answers.is_empty()
+            && message.response_code != ResponseCode::NXDomain
+        {
             return Ok(message);
         }
 
@@ -325,8 +328,9 @@ impl<H: DnsHandle> DnssecDnsHandle<H> {
                 Proof::Bogus
             }
             (false, false, false) => {
-                // Return Ok if there were no NSEC/NSEC3 records and no wildcard RRSIGs.
-                if !message.answers.is_empty() {
+                // Return Ok if there were no NSEC/NSEC3 records and no wildcard RRSIGs: a positive
+                // answer needs no denial.  A name error does, whatever its answer section holds.
+                if !message.answers.is_empty() && message.response_code != ResponseCode::NXDomain {
                     return Ok(message);
                 }
 
